@@ -1166,7 +1166,10 @@ func (e stakingCustomPrecompiledContractRwWithdrawRewards) withdrawRewards(ctx s
 		return false, err
 	}
 
-	allRewards, err := distkeeper.NewQuerier(dk).DelegationTotalRewards(ctx, &disttypes.QueryDelegationTotalRewardsRequest{
+	// the distribution querier closes the current period of every validator it visits: run it on a branch,
+	// so that the only state changes are those of the withdrawal messages themselves (as with the native messages)
+	queryCtx, _ := ctx.CacheContext()
+	allRewards, err := distkeeper.NewQuerier(dk).DelegationTotalRewards(queryCtx, &disttypes.QueryDelegationTotalRewardsRequest{
 		DelegatorAddress: delegatorAddrStr,
 	})
 	if err != nil {
